@@ -104,6 +104,8 @@ def run(names, budget, props):
                 continue
             meta = json.load(open(os.path.join(d, "meta.json")))
             row = {}
+            if OWNER_ONLY:
+                props = [meta.get("property")]
             for prop in props:
                 bdir = os.path.join(SCRATCH, "build")
                 env = dict(os.environ)
@@ -115,6 +117,9 @@ def run(names, budget, props):
                 row[prop] = {"rc": r.returncode, "s": round(time.time() - t0, 1), "first": (lines[0][:400] if lines else "")}
             caught = [p for p in props if row[p]["rc"] == 1]
             table[name] = row
+            if OWNER_ONLY:
+                print("%-12s owner=%s caught=%s %s" % (name, meta.get("property"), caught, row[props[0]]["first"][:160]), flush=True)
+                continue
             meta["checks_quick"] = {"budget_s": budget, "result": row, "caught_by": caught, "commit_of_verif": sh(["git", "-C", VERIF, "rev-parse", "--short", "HEAD"]).stdout.strip()}
             json.dump(meta, open(os.path.join(d, "meta.json"), "w"), indent=1)
             print("%-8s owner=%s caught_by=%s %s" % (name, meta.get("property"), caught, [p for p in props if row[p]["rc"] not in (0, 1)]), flush=True)
@@ -125,8 +130,13 @@ def run(names, budget, props):
     shutil.rmtree(SCRATCH, ignore_errors=True)
 
 
+OWNER_ONLY = False
+
 if __name__ == "__main__":
     a = sys.argv[1:]
+    if "--owner-only" in a:
+        OWNER_ONLY = True
+        a.remove("--owner-only")
     if a[0] == "intake":
         sys.exit(0 if intake(a[1], a[2]) else 1)
     budget, props, names = 10, PROPS, []
